@@ -55,6 +55,10 @@ def directed_event_cases():
     cases.append(("descending in one file, interleaved names",
                   [("run_jobs_batch_1_1_events.log", "hand", _spec("x" if i % 2 else "hpc_submit", "2024-03-09 23:59:%02d" % (59 - i)))
                    for i in range(8)], None))
+    cases.append(("names that differ only after a dot", [("submit_jobs_events.log", "real", _spec("sim.start", t)),
+                                                         ("run_jobs_batch_1_0_events.log", "real", _spec("sim.end", "2024-03-09 23:59:59")),
+                                                         ("run_jobs_batch_1_0_events.log", "hand", _spec("sim", "2024-03-09 23:59:57")),
+                                                         ("submit_jobs_events.log", "hand", _spec("sim.start", "2024-03-09 23:59:56"))], None))
     cases.append(("no event files at all", [], None))
     cases.append(("only Parquet names", [("stats_events.log", "real", {"name": "cpu_stats", "source": "b1", "category": "ResourceUtilization",
                                                                       "message": "m", "timestamp": t, "data": {"cpu_percent": 3.0}}),
